@@ -123,6 +123,37 @@ pub enum Traverse {
     Fold,
     /// k x `next()`, then `fold`
     Mixed(usize),
+    /// `nth(k)` until it answers `None`
+    Nth(usize),
+    /// `skip(k)` then `fold`
+    Skip(usize),
+    /// `step_by(k)` then `next()` to exhaustion
+    StepBy(usize),
+    /// `last()`
+    Last,
+    /// `count()` (the count is reported as the single size-hint entry)
+    Count,
+    /// `by_ref().take(k)` collected, then the rest through `next()`
+    TakeThenNext(usize),
+}
+
+pub const DERIVED_MODES: [Traverse; 9] = [Traverse::Nth(1), Traverse::Nth(2), Traverse::Skip(1), Traverse::Skip(2), Traverse::StepBy(2), Traverse::StepBy(3), Traverse::Last, Traverse::Count, Traverse::TakeThenNext(1)];
+
+impl Traverse {
+    /// Positions of a full `next()` traversal of `n` results that this derived mode returns, in order.
+    pub fn positions(self, n: usize) -> Vec<usize> {
+        match self {
+            Traverse::Nth(k) => (0..n).filter(|i| (i + 1) % (k + 1) == 0).collect(),
+            Traverse::Skip(k) => (k.min(n)..n).collect(),
+            Traverse::StepBy(k) => (0..n).step_by(k).collect(),
+            Traverse::Last => if n == 0 { vec![] } else { vec![n - 1] },
+            Traverse::Count => vec![],
+            _ => (0..n).collect(),
+        }
+    }
+    pub fn is_derived(self) -> bool {
+        !matches!(self, Traverse::Next | Traverse::Fold | Traverse::Mixed(_))
+    }
 }
 
 /// Drives a sequential query iterator in the requested mode.  The iterator is taken by value so that its
@@ -150,6 +181,37 @@ pub fn drive<I: Iterator>(mut it: I, mode: Traverse, map: &mut dyn FnMut(I::Item
             }
             hints.push(it.size_hint());
             it.fold((), |(), x| sink.push(map(x)));
+        }
+        Traverse::Nth(k) => {
+            while let Some(x) = it.nth(k) {
+                sink.push(map(x));
+            }
+            // fused: stays `None`
+            if it.next().is_some() {
+                hints.push((usize::MAX, None));
+            }
+        }
+        Traverse::Skip(k) => it.skip(k).fold((), |(), x| sink.push(map(x))),
+        Traverse::StepBy(k) => {
+            let mut s = it.step_by(k);
+            while let Some(x) = s.next() {
+                sink.push(map(x));
+            }
+        }
+        Traverse::Last => {
+            if let Some(x) = it.last() {
+                sink.push(map(x));
+            }
+        }
+        Traverse::Count => hints.push((it.count(), None)),
+        Traverse::TakeThenNext(k) => {
+            let first: Vec<I::Item> = it.by_ref().take(k).collect();
+            for x in first {
+                sink.push(map(x));
+            }
+            while let Some(x) = it.next() {
+                sink.push(map(x));
+            }
         }
     }
 }
@@ -240,16 +302,77 @@ pub fn run_query_case(ctx: &mut GridCtx, desc: &QDesc, seq: SeqFn, ent: EntFn) {
             continue;
         }
         let hist = ctx.worlds[wi].clone();
-        for mode in [Traverse::Next, Traverse::Fold, Traverse::Mixed(1), Traverse::Mixed(2)] {
+        // (identifier, values) of the next() traversal, kept outside the arena for the derived modes: every mode
+        // starts a fresh arena epoch and rebuilds the world first, so addresses, hence table order, are identical
+        type Key = (Option<Id>, Vec<Option<Option<u32>>>);
+        let key = |r: &Row| -> Key { (r.id, r.c.iter().map(|g| match g { Got::Val(v, ..) => Some(Some(*v)), Got::Absent => Some(None), Got::NotViewed => None }).collect::<Vec<_>>()) };
+        let mut base: Vec<Key> = Vec::new();
+        for mode in [Traverse::Next, Traverse::Fold, Traverse::Mixed(1), Traverse::Mixed(2)].into_iter().chain(DERIVED_MODES) {
             arena::begin(0);
             comp::ledger_begin();
             let mut fails: Vec<(String, String)> = Vec::new();
-            {
+            if mode.is_derived() {
                 let mut ex = build_exec(&ctx.ops, &hist);
                 let mut rows = Vec::new();
                 let mut hints = Vec::new();
                 seq(&mut ex.w, mode, &mut rows, &mut hints);
                 ctx.stats.evaluations += 1;
+                ctx.stats.rows_checked += rows.len() as u64;
+                if mode == Traverse::Count {
+                    if hints.first().map(|h| h.0) != Some(base.len()) {
+                        fails.push(("iterator-count".into(), format!("count() = {:?}, the next() traversal yields {}", hints.first().map(|h| h.0), base.len())));
+                    }
+                } else {
+                    if hints.iter().any(|h| h.0 == usize::MAX) {
+                        fails.push(("iterator-not-fused".into(), String::new()));
+                    }
+                    let want: Vec<usize> = mode.positions(base.len());
+                    let got: Vec<Key> = rows.iter().map(key).collect();
+                    let exp: Vec<&Key> = want.iter().map(|i| &base[*i]).collect();
+                    if got.len() != exp.len() || got.iter().zip(exp.iter()).any(|(a, b)| a != *b) {
+                        fails.push(("iterator-method-disagrees-with-next-traversal".into(), format!("got {:?}, positions {:?} of the next() traversal are {:?}", got, want, exp)));
+                    }
+                    // writes through the returned rows land on exactly those entities (rows identify their entity
+                    // through the unique pre-write values)
+                    let mut m2 = ex.m.clone();
+                    for (_id, row) in m2.ents.iter_mut() {
+                        if !desc.matches(Model::mask_of(row)) {
+                            continue;
+                        }
+                        let mine: Vec<Option<Option<u32>>> = (0..NC).map(|c| if desc.kinds[c] != 0 { Some(row[c]) } else { None }).collect();
+                        let any_val = mine.iter().any(|x| matches!(x, Some(Some(_))));
+                        let returned = got.iter().any(|(gid, gv)| if desc.with_id { *gid == Some(*_id) } else { *gv == mine });
+                        if !any_val && !desc.with_id {
+                            continue;
+                        }
+                        if returned {
+                            for c in 0..NC {
+                                if desc.writes(c) && c != 1 {
+                                    if let Some(v) = row[c].as_mut() {
+                                        *v = v.wrapping_add(WRITE_DELTA);
+                                    }
+                                }
+                            }
+                        }
+                    }
+                    let after = snap_vals(&snapshot(&mut ex.w));
+                    if after != model_vals(&m2) {
+                        fails.push(("iterator-method-writes-misplaced".into(), format!("world {:?} model {:?}", after, model_vals(&m2))));
+                    }
+                }
+                let errs = comp::with_ledger(|l| l.errors.clone()).unwrap_or_default();
+                if !errs.is_empty() {
+                    fails.push(("bad-value-observed".into(), format!("{:?}", errs)));
+                }
+            } else {
+                let mut ex = build_exec(&ctx.ops, &hist);
+                let mut rows = Vec::new();
+                let mut hints = Vec::new();
+                seq(&mut ex.w, mode, &mut rows, &mut hints);
+                ctx.stats.evaluations += 1;
+                if mode == Traverse::Next {
+                    base = arena::with_system(|| rows.iter().map(key).collect());
+                }
                 ctx.stats.rows_checked += rows.len() as u64;
                 ctx.stats.nonempty_results += (!rows.is_empty()) as u64;
                 if let Some(f) = check_rows(desc, &rows, &ex.m, "query") {
@@ -441,7 +564,15 @@ pub enum Consumer {
     Count,
     Any,
     Sum,
+    /// `take_any(k)` collected, then viewed: k (or all, if fewer) distinct matching entities
+    TakeAny(usize),
+    /// `find_any(|_| true)`
+    FindAny,
+    /// `take_any(k).count()`
+    TakeAnyCount(usize),
 }
+
+pub const CONSUMERS: [Consumer; 11] = [Consumer::ForEach, Consumer::MapCollect, Consumer::Count, Consumer::Any, Consumer::Sum, Consumer::TakeAny(1), Consumer::TakeAny(2), Consumer::TakeAny(3), Consumer::FindAny, Consumer::TakeAnyCount(2), Consumer::TakeAnyCount(3)];
 
 /// par closure: runs `par_query` with the given consumer; returns the rows it saw (ForEach / MapCollect)
 /// and a scalar (Count / Any / Sum).
@@ -455,7 +586,7 @@ pub fn run_par_case(ctx: &mut GridCtx, desc: &QDesc, seq: SeqFn, par: ParFn) {
             continue;
         }
         let hist = ctx.worlds[wi].clone();
-        for consumer in [Consumer::ForEach, Consumer::MapCollect, Consumer::Count, Consumer::Any, Consumer::Sum] {
+        for consumer in CONSUMERS {
             arena::begin(0);
             comp::ledger_begin();
             let mut fails: Vec<(String, String)> = Vec::new();
@@ -502,6 +633,44 @@ pub fn run_par_case(ctx: &mut GridCtx, desc: &QDesc, seq: SeqFn, par: ParFn) {
                         let b2 = snap_vals(&snapshot(&mut ex_seq.w));
                         if a2 != b2 {
                             fails.push(("par-update-outcome-differs-from-sequential".into(), format!("par {:?} seq {:?}", a2, b2)));
+                        }
+                    }
+                    Consumer::TakeAny(_) | Consumer::FindAny => {
+                        ctx.stats.rows_checked += rows.len() as u64;
+                        let k = match consumer { Consumer::TakeAny(k) => k, _ => 1 };
+                        if rows.len() != k.min(exp.len()) {
+                            fails.push(("par-early-stop-result-count".into(), format!("{} results, {} entities match, {} requested", rows.len(), exp.len(), k)));
+                        }
+                        let key = |r: &Row| r.c.iter().map(|g| match g { Got::Val(v, ..) => Some(Some(*v)), Got::Absent => Some(None), Got::NotViewed => None }).collect::<Vec<_>>();
+                        let mut seen = std::collections::BTreeSet::new();
+                        let mut m2 = ex.m.clone();
+                        for r in &rows {
+                            let rv = key(r);
+                            // which entity is it?
+                            let cand: Vec<Id> = exp.iter().filter(|(id, e)| e.to_vec() == rv && r.id.map_or(true, |x| x == **id) && !seen.contains(*id)).map(|(id, _)| *id).collect();
+                            match cand.first() {
+                                None => fails.push(("par-early-stop-row-is-no-unreturned-matching-entity".into(), format!("{:?} {:?}", r.id, rv))),
+                                Some(id) => {
+                                    seen.insert(*id);
+                                    let row = m2.ents.get_mut(id).unwrap();
+                                    for c in 0..NC {
+                                        if desc.writes(c) && c != 1 {
+                                            if let Some(v) = row[c].as_mut() {
+                                                *v = v.wrapping_add(WRITE_DELTA);
+                                            }
+                                        }
+                                    }
+                                }
+                            }
+                        }
+                        let after = snap_vals(&snapshot(&mut ex.w));
+                        if after != model_vals(&m2) {
+                            fails.push(("par-early-stop-writes-misplaced".into(), format!("world {:?} model {:?}", after, model_vals(&m2))));
+                        }
+                    }
+                    Consumer::TakeAnyCount(k) => {
+                        if scalar as usize != k.min(exp.len()) {
+                            fails.push(("par-take-any-count".into(), format!("take_any({}).count() = {}, {} entities match", k, scalar, exp.len())));
                         }
                     }
                     Consumer::Count => {
